@@ -536,6 +536,7 @@ pub fn def() -> PropDef {
         strata: vec![
             Stratum { name: "hist_enum", quick: 4 * NHIST4, thorough: 4 * NHIST4, exhaustive: (true, true), run: hist_enum, what: "all 7382 histories <= 4 for PUB and for XPUB, one subscriber, with an ASCII and with a non-UTF-8 topic alphabet" },
             Stratum { name: "hist_concurrent", quick: 60_000, thorough: (1_500_000) * 3, exhaustive: (false, false), run: hist_concurrent, what: "2..5 subscribers joining and subscribing concurrently with continuous publishing; final state judged" },
+            Stratum { name: "recovery", quick: 400, thorough: 30_000, exhaustive: (false, false), run: super::c12::recovery, what: "matching is about subscriptions, not about a connection's past: a subscriber that stalled while a thousand-odd small messages were published and has caught up receives what is published afterwards" },
             Stratum { name: "hist_random", quick: 100_000, thorough: (1_500_000) * 3, exhaustive: (false, false), run: hist_random, what: "1..3 subscribers, longer histories, random transport" },
         ],
     }
